@@ -55,6 +55,18 @@ pub fn form(v: &BigInt, which: usize, uniq: usize) -> (Option<String>, String, &
     let neg = v.is_negative();
     let mag = v.abs();
     let sign = if neg { "-" } else { "" };
+    // round 11: bitwise operators between ONE sized and ONE unsized operand (the result of an operator has no size of
+    // its own, so the value is judged by its magnitude, never by the width of the sized operand)
+    match which {
+        8 => return (None, format!("0x0 | {}", v), "sized-zero-or-unsized"),
+        9 => return (None, format!("{} ^ 0b0", if neg { format!("({})", v) } else { v.to_string() }), "unsized-xor-sized-zero"),
+        10 if !neg => {
+            let digits = std::cmp::max(1, (v.bits() as usize + 3) / 4) + 1;
+            return (None, format!("0x{} & {}", "f".repeat(digits), v), "sized-mask-and-unsized");
+        }
+        10 => return (None, format!("{} | 0x00", v), "unsized-or-sized-zero"),
+        _ => {}
+    }
     match which % 8 {
         7 if v.is_positive() => {
             // the value as the short slice of a NEGATIVE unsized operand that fits the slice width:
@@ -291,12 +303,12 @@ pub fn run_values(kind: Kind, n: usize, values: &[BigInt], all_forms_at_boundari
     let mut rejected: Vec<(Option<String>, String, BigInt)> = Vec::new();
     let mut uniq = 0;
     for (i, v) in values.iter().enumerate() {
-        let forms: Vec<usize> = if all_forms_at_boundaries && near_boundary(n, v) { (0..8).collect() } else { vec![i % 6] };
+        let forms: Vec<usize> = if all_forms_at_boundaries && near_boundary(n, v) { (0..11).collect() } else { vec![i % 6] };
         for f in forms {
             uniq += 1;
             let (decl, text, _fname) = form(v, f, uniq);
             // sized literal forms given to a data directive are judged by their width, not by this table
-            if kind == Kind::D && (f % 6 == 1 || f % 6 == 2 || f % 6 == 5) {
+            if kind == Kind::D && f < 8 && (f % 6 == 1 || f % 6 == 2 || f % 6 == 5) {
                 continue;
             }
             if in_range(kind, n, v) {
@@ -578,7 +590,7 @@ impl Property for C04 {
     fn rule(&self) -> String {
         "ENUMERATED: type in {uN, sN, iN, #dN} x N in 0..=16 x every v in [-2^N-4, 2^N+4] (quick: complete for N <= 13, the +-4 neighbourhood of every boundary \
          -2^N, -2^(N-1), 0, 2^(N-1), 2^N for N = 14..16; thorough: complete for N <= 16), written in rotating forms (decimal, 0x, 0b, (v+1)-1, constant reference, hex \
-         with leading zeros; all of these plus the bitwise NOT of a sized literal and the short slice of a negative operand `(0 - K)`W` within +-4 of a boundary); plus #dN with sized literals of every width 1..N+9. Oracle = the closed-form ranges of the \
+         with leading zeros; all of these plus the bitwise NOT of a sized literal, the short slice of a negative operand `(0 - K)`W` and the bitwise operators between one sized and one unsized operand - `0x0 | v`, `v ^ 0b0`, `0xff..f & v`, `v | 0x00` - within +-4 of a boundary); plus #dN with sized literals of every width 1..N+9. Oracle = the closed-form ranges of the \
          statement: all in-range values of a chunk are assembled in one program whose output must be the concatenation of the N-bit two's-complement images; each \
          out-of-range value is assembled between two in-range neighbours and must give an error located on its own line and no output. RANDOM part: N in 17..=256, values at each boundary +-0..4; one case in four is a MOVING value: `t after(K)` / `t (K) + here` with `#fn after(n) => n + here`, where the label `here` stands behind an instruction of a short/long family and moves by one after the first pass - the final value decides acceptance and the emitted bits. Every case is non-trivial (it is the boundary table itself); distinct = distinct (type, N, chunk). (v4) HANDED-DOWN values, a third of the moving cases: a value accepted by an outer typed parameter (s/i/u, 4-16 bits) reaches a second typed parameter (u/s/i, 4-20 bits) through a block-local (`y = x` / `asm { emit {y} }`), a function argument, two locals, or textually; accepted iff inside BOTH ranges, emitted as the inner type's image."
             .to_string()
